@@ -401,6 +401,59 @@ def obligations(run, mir, rp, replay, want=("advance", "invariants", "panic")):
         else:
             e2.prove_each(run, ob, ex, hyp, cl, names, replay("maximal-munch"), prefer=[small])
             ob.detail += f"; {n_exit} loop exits, {n_back} back edges"
+    if "interp" in want:
+        ob = run.ob("interpolation-offset", "E2", "string scanning loop: when an interpolation `{` opens, the offset recorded for re-lexing its "
+                    "content is the position of the character after the brace (same line as the string's opening quote, column = quote column "
+                    "+ characters of the string read so far + 1); the tokens of the content are moved by exactly that offset "
+                    "(Lex::new(lex.pos.offset(offset).start, token))", ["into_tokens (string loop body)", "into_tokens::{closure} (re-lexed tokens)"])
+        cl, n_set = [], 0
+        colname = str(S.col)
+        for p in sr.ends:
+            if p.kind != "loop_back" or loop_of(p) != "string":
+                continue
+            fr0 = p.state.frames[0]
+            cur = sr._loc(p.state, fr0, "cur_offset")
+            string = sr._loc(p.state, fr0, "string")
+            if not (isinstance(cur, Agg) and len(cur.fields) == 2 and is_sstr(string)):
+                continue
+            line, col = cur.fields
+            if not (z3.is_bv(col) and colname in str(col)):
+                continue          # not assigned in this iteration (still the arbitrary value from the loop header)
+            n_set += 1
+            ls = string.fields[0]
+            cl.append(z3.Implies(conj(p.cond), z3.And(line == S.line, col == S.col + ls + 1)))
+        # the closure that moves the re-lexed tokens
+        cands = [f for n_, f in mir.fns.items() if re.match(r"^(.*::)?into_tokens::\{closure#\d+\}::\{closure#\d+\}$", n_) and len(f.args) == 2 and "Lex" in f.args[1][1]]
+        moved = None
+        if len(cands) == 1:
+            ex2 = Exec(mir, max_paths=500)
+            st2 = State()
+            off = Opq(z3.Const("offset", Val), "CaretPos")
+            env = Agg("closure", cands[0].args[0][1].lstrip("&").replace("mut ", "").strip(), [Ref(ex2.new_cell(st2, Ref(ex2.new_cell(st2, off))))])
+            lexv = Opq(z3.Const("lex", Val), "Lex")
+            ends2 = e2.run_kernel(run, ex2, cands[0], [Ref(ex2.new_cell(st2, env)), Ref(ex2.new_cell(st2, lexv))], st2)
+            moved = False
+            for p in ends2:
+                if p.kind != "return":
+                    continue
+                offs = [e_ for e_ in p.events if e_["name"].endswith("Position::offset")]
+                news = [e_ for e_ in p.events if e_["name"].endswith("Lex::new")]
+                if len(offs) == 1 and len(news) == 1:
+                    from e2 import rust_struct
+                    pf = rust_struct("src/common/position.rs", "Position")
+                    lf = rust_struct("src/parse/lex/token.rs", "Lex")
+                    want_start = ex2.project(p.state, offs[0]["ret"], ("f", pf.index("start")), "CaretPos")
+                    a_pos = ex2.to_val(p.state, ex2.project(p.state, lexv, ("f", lf.index("pos")), "Position"))
+                    a_tok = ex2.to_val(p.state, ex2.project(p.state, lexv, ("f", lf.index("token")), "Token"))
+                    moved = z3.eq(z3.simplify(news[0]["argvals"][0]), z3.simplify(ex2.to_val(p.state, want_start))) and \
+                        z3.eq(z3.simplify(offs[0]["argvals"][0]), z3.simplify(a_pos)) and z3.eq(z3.simplify(offs[0]["argvals"][1]), off.term) and \
+                        z3.eq(z3.simplify(news[0]["argvals"][1]), z3.simplify(a_tok)) and z3.eq(z3.simplify(ex2.to_val(p.state, p.ret)), z3.simplify(ex2.to_val(p.state, news[0]["ret"])))
+        if not n_set or moved is None:
+            ob.inconclusive(f"offset assignments found: {n_set}; token-moving closure found: {moved is not None}")
+        else:
+            cl.append(z3.BoolVal(bool(moved)))
+            e2.prove_each(run, ob, ex, hyp, cl, names, replay("interpolation-offset"), prefer=[small])
+            ob.detail += f"; {n_set} paths record an offset"
     if "panic" in want:
         pan = [p for p in sr.ends if p.kind == "panic"]
         ob = run.ob("lexer-step-no-panic", "E2", "no overflow, unwrap, slice or cast panic is reachable in one lexer step "
